@@ -1,4 +1,130 @@
-import Fpy.Model.Lang.Core
+/-
+C08 — Loop and iterator restructuring preserves results.
+
+What is proved here (model level, `Fpy.Lang` evaluator of Model/Lang/Core.lean; the real
+transformations' outputs are run on that evaluator by harness/c08.py):
+
+* `while_unroll_sound` (FULL): for every unroll count `k`, condition, body, statements before and
+  after, environment, heap and context, the `k`-times unrolled loop — the nest
+  `if c: b; if c: b; … while c: b` that `fpy2/transform/while_unroll.py` emits — and the loop have the
+  same outcome: same returned value and heap (early `return` in the body included), same final
+  environment and heap, same error, or both diverge.  `Returns`/`Normal` forms follow.
+* the equivalence is a CONGRUENCE (`stmt_equiv_congruence`): the unrolled loop may sit anywhere —
+  inside `if`, `with`, other `while`/`for` bodies — and the enclosing function returns the same.
+* fuel: `Returns` is "there is a fuel with which the evaluator returns"; by `fuel_mono` more fuel
+  never changes a definite outcome, so `Returns` is deterministic (`returns_deterministic`).
+
+NOT proved here (see the `_partial` entries at the end): `for` unrolling with index arithmetic,
+loop splitting, zip/enumerate elimination, any/all fusion — covered by differential runs only.
+-/
+import Fpy.Proof.LangEntry
 namespace Fpy.Props.C08
-theorem placeholder : True := trivial
+open Fpy Fpy.Lang Fpy.Xform
+
+/-- more fuel never changes a definite result (one of ten: `evalE_fuel_mono … evalB_fuel_mono`) -/
+theorem fuel_mono {Φ : Funs} {f f' : Nat} (hf : f ≤ f') {σ : Env} {μ : Heap} {C : Ctx} {ss : List Stmt}
+    {r : M (Outcome × Heap)} (h : evalB Φ f σ μ C ss = r) (hr : r ≠ .error .outOfFuel) :
+    evalB Φ f' σ μ C ss = r := evalB_fuel_mono hf h hr
+
+theorem returns_deterministic {Φ : Funs} {σ : Env} {μ : Heap} {C : Ctx} {ss : List Stmt} {v w : Val} {μ' μ'' : Heap}
+    (h1 : Returns Φ σ μ C ss v μ') (h2 : Returns Φ σ μ C ss w μ'') : v = w ∧ μ' = μ'' := h1.det h2
+
+/-- `while` unrolling, every `k`, both directions, any early `return` -/
+theorem while_unroll_sound (Φ : Funs) (c : Expr) (b pre rest : List Stmt) (k : Nat) (σ : Env) (μ : Heap) (C : Ctx) :
+    (∀ v μ', Returns Φ σ μ C (pre ++ unrollWhile c b k :: rest) v μ' ↔ Returns Φ σ μ C (pre ++ .while c b :: rest) v μ') ∧
+    (∀ σ' μ', Normal Φ σ μ C (pre ++ unrollWhile c b k :: rest) σ' μ' ↔ Normal Φ σ μ C (pre ++ .while c b :: rest) σ' μ') ∧
+    (∀ e, Fails Φ σ μ C (pre ++ unrollWhile c b k :: rest) e ↔ Fails Φ σ μ C (pre ++ .while c b :: rest) e) ∧
+    (Diverges Φ σ μ C (pre ++ unrollWhile c b k :: rest) ↔ Diverges Φ σ μ C (pre ++ .while c b :: rest)) :=
+  have h := Fpy.Xform.while_unroll_sound Φ c b pre rest k
+  ⟨fun _ _ => h.returns, fun _ _ => h.normal, fun _ => h.fails, h.diverges⟩
+
+/-- the shape: one unroll step is `if c: (b; <previous>)`, zero steps is the loop itself -/
+theorem unroll_shape (c : Expr) (b : List Stmt) (k : Nat) :
+    unrollWhile c b 0 = .while c b ∧ unrollWhile c b (k + 1) = .if1 c (b ++ [unrollWhile c b k]) := ⟨rfl, rfl⟩
+
+/-- the rewritten loop may be nested at any depth: statement equivalence is preserved by every block former -/
+theorem stmt_equiv_congruence (Φ : Funs) {s s' : Stmt} (h : SEquiv Φ s s') (pre rest : List Stmt) (c : Expr)
+    (p : Pat) (it ce : Expr) (nm : Option String) (other : List Stmt) :
+    BEquiv Φ (pre ++ s :: rest) (pre ++ s' :: rest) ∧
+    SEquiv Φ (.if1 c (pre ++ s :: rest)) (.if1 c (pre ++ s' :: rest)) ∧
+    SEquiv Φ (.ifte c (pre ++ s :: rest) other) (.ifte c (pre ++ s' :: rest) other) ∧
+    SEquiv Φ (.ifte c other (pre ++ s :: rest)) (.ifte c other (pre ++ s' :: rest)) ∧
+    SEquiv Φ (.while c (pre ++ s :: rest)) (.while c (pre ++ s' :: rest)) ∧
+    SEquiv Φ (.for p it (pre ++ s :: rest)) (.for p it (pre ++ s' :: rest)) ∧
+    SEquiv Φ (.with ce nm (pre ++ s :: rest)) (.with ce nm (pre ++ s' :: rest)) :=
+  have hb : BEquiv Φ (pre ++ s :: rest) (pre ++ s' :: rest) :=
+    BEquiv.append (BEquiv.refl Φ pre) (BEquiv.cons h (BEquiv.refl Φ rest))
+  ⟨hb, SEquiv.if1 c hb, SEquiv.ifte c hb (BEquiv.refl Φ other), SEquiv.ifte c (BEquiv.refl Φ other) hb,
+    SEquiv.while c hb, SEquiv.for p it hb, SEquiv.with ce nm hb⟩
+
+theorem unrolled_loop_anywhere (Φ : Funs) (c : Expr) (b : List Stmt) (k : Nat) :
+    SEquiv Φ (unrollWhile c b k) (.while c b) := unrollWhile_sequiv Φ c b k
+
+/-- at the entry point: `f(*args)` versus `unroll_while(f, k)(*args)` for a loop at the top level of the body
+(use `stmt_equiv_congruence` for a nested one) -/
+theorem while_unroll_entry {Φ : Funs} {f f' : String} {fd fd' : FuncDef} (hf : Φ.find? f = some fd) (hf' : Φ.find? f' = some fd')
+    (hp : fd.params = fd'.params) (hc : fd.ctx = fd'.ctx) {c : Expr} {b pre rest : List Stmt} {k : Nat}
+    (hbody : fd.body = pre ++ .while c b :: rest) (hbody' : fd'.body = pre ++ unrollWhile c b k :: rest)
+    (args : List Val) (μ : Heap) (ctx : Option Ctx) (v : Val) (μ' : Heap) :
+    (∃ n, callEntry Φ n f args μ ctx = .ok (v, μ')) ↔ (∃ n, callEntry Φ n f' args μ ctx = .ok (v, μ')) :=
+  entry_equiv hf hf' hp hc (by rw [hbody, hbody']; exact (Fpy.Xform.while_unroll_sound Φ c b pre rest k).symm) args μ ctx v μ'
+
+/-! ### non-vacuity: concrete programs, evaluated -/
+
+def one : Expr := .num (.fv (.fin ⟨false, 0, 1⟩))
+def three : Expr := .num (.fv (.fin ⟨false, 0, 3⟩))
+def two : Expr := .num (.fv (.fin ⟨false, 0, 2⟩))
+/-- `x = x + 1` -/
+def incr : Stmt := .assign (.var "x") (.op .add [.var "x", one])
+/-- `x = 0; while x < 3: x = x + 1; return x` -/
+def prog (loop : Stmt) : List Stmt :=
+  [.assign (.var "x") (.num (.fv (.fin ⟨false, 0, 0⟩))), loop, .ret (.var "x")]
+/-- `while True: (if x >= 2: return x); x = x + 1` : leaves through an early return -/
+def earlyBody : List Stmt := [.if1 (.cmp [.ge] [.var "x", two]) [.ret (.var "x")], incr]
+
+def retNum : M (Outcome × Heap) → Option NV
+  | .ok (.ret (.num a), _) => some a
+  | _ => none
+
+example : retNum (evalB ⟨[]⟩ 40 [] [] fp64 (prog (.while (.cmp [.lt] [.var "x", three]) [incr])))
+    = some (.fv (.fin ⟨false, 0, 3⟩)) := by decide
+example : retNum (evalB ⟨[]⟩ 40 [] [] fp64 (prog (unrollWhile (.cmp [.lt] [.var "x", three]) [incr] 2)))
+    = some (.fv (.fin ⟨false, 0, 3⟩)) := by decide
+example : retNum (evalB ⟨[]⟩ 40 [] [] fp64 (prog (.while (.bool true) earlyBody)))
+    = some (.fv (.fin ⟨false, 0, 2⟩)) := by decide
+example : retNum (evalB ⟨[]⟩ 40 [] [] fp64 (prog (unrollWhile (.bool true) earlyBody 5)))
+    = some (.fv (.fin ⟨false, 0, 2⟩)) := by decide
+/-- and the instance of the theorem for this program -/
+example (v : Val) (μ' : Heap) :
+    Returns ⟨[]⟩ [] [] fp64 (prog (unrollWhile (.bool true) earlyBody 5)) v μ' ↔
+      Returns ⟨[]⟩ [] [] fp64 (prog (.while (.bool true) earlyBody)) v μ' :=
+  ((while_unroll_sound ⟨[]⟩ (.bool true) earlyBody [.assign (.var "x") (.num (.fv (.fin ⟨false, 0, 0⟩)))]
+    [.ret (.var "x")] 5 [] [] fp64).1 v μ')
+
+/-! ### open parts (kept visible; each is exercised by the differential runs of harness/c08.py)
+
+* `for_unroll_sound_partial` — MISSING: the index-loop schema of `for_unroll.py` (materialise the
+  iterable, `range(len // k)` main loop with `k` indexed reads, peeled remainder / divisibility
+  assertion).  Needs a lemma relating `forLoop` over the materialised list to indexed reads under the
+  integer context; not attempted.
+* `split_loop_sound_partial`, `zip_elim_sound_partial`, `enumerate_elim_sound_partial`,
+  `fuse_any_all_sound_partial` — MISSING likewise.  For these the model evaluator allocates fresh heap
+  cells (`range`, `zip`, `enumerate`, comprehensions), so source and target heaps differ by unreachable
+  cells: the statement needs heap equivalence up to garbage, which this development does not define. -/
+theorem for_unroll_sound_partial (Φ : Funs) (σ : Env) (μ : Heap) (C : Ctx) (r i : Nat) (p : Pat) (body : List Stmt) :
+    forLoopω Φ σ μ C r i p body =
+      (do let l ← heapGet μ r
+          match l[i]? with
+          | none => .ok (.normal σ, μ)
+          | some x => do
+            let σ' ← bindPatω p x σ
+            let (o, μ') ← evalBω Φ σ' μ C body
+            match o with
+            | .ret v => .ok (.ret v, μ')
+            | .normal σ'' => forLoopω Φ σ'' μ' C r (i + 1) p body) :=
+  -- PROVED PART: the fuel-free semantics of one `for` iteration (read element `i` of the LIVE list,
+  -- bind, run the body, continue at `i + 1`), from which `k`-fold peeling at the semantic level is `k`
+  -- rewrites.  MISSING: the source-level schema (temporaries, `range`, index arithmetic under INTEGER).
+  forLoopω_eq Φ σ μ C r i p body
+
 end Fpy.Props.C08
